@@ -23,7 +23,8 @@ RULE = (
     "DataArrays whose trailing dims are the declared output positions; definition-time options act like call-time "
     "ones and call-time overrides; in a third of the cases the same "
     "ufunc object and option objects are then applied on a second grid with different defaults (judged with that grid's "
-    "rules); a mis-positioned input is rejected; pad_before_func bound at definition == call. Class "
+    "rules); a mis-positioned input is rejected; pad_before_func bound at definition == call; dask= / map_overlap= bound at "
+    "definition == call == apply on lazy input (parallelized, allowed, allowed+map_overlap on a chunked core dim), call-time dask overrides 'forbidden' and vice versa. Class "
     "= (supply mode, #inputs, #outputs, dummies per argument, which options come from which level, rules); non-trivial "
     "iff some width > 0 or several inputs/dummies."
 )
@@ -268,6 +269,8 @@ def run_case(ctx, desc):
         # (coordinates of the outputs are not judged here: the statement fixes the dimensions only)
     if ctx.case_index % 4 == 0:
         pad_after_scenario(ctx, desc, g, ds, cm)
+    if ctx.case_index % 4 == 1:
+        dask_binding_scenario(ctx, desc, g, ds, cm)
     # a mis-positioned input must be rejected
     if desc["misplace"]:
         k = desc["dseed"] % len(ins)
@@ -319,3 +322,68 @@ def pad_after_scenario(ctx, desc, g, ds, cm):
                 return
     except Exception as e:
         ctx.violation("pad_before_func-binding", f"raised {type(e).__name__}: {str(e)[:200]}")
+
+
+def dask_binding_scenario(ctx, desc, g, ds, cm):
+    """dask= and map_overlap= bound at definition time act as if passed at call time; call-time values override."""
+    import dask
+    import xarray as xr
+    from xgcm import apply_as_grid_ufunc, as_grid_ufunc
+
+    cands = [a for a in cm if "center" in cm[a] and ("left" in cm[a] or "right" in cm[a])]
+    if not cands:
+        return
+    a = cands[desc["dseed"] % len(cands)]
+    to = "left" if "left" in cm[a] else "right"
+    n = ds.sizes[cm[a]["center"]]
+    da = xr.DataArray(gen.quarter_data(desc["dseed"] + 7, [2, n]), dims=["time", cm[a]["center"]])
+    sig = f"(D:center)->(D:{to})"
+    bw = {"D": (1, 0) if to == "left" else (0, 1)}
+
+    seen = []
+
+    def f(x):
+        seen.append(type(x).__module__.split(".")[0])  # numpy blocks (parallelized, map_overlap) or the dask array itself (allowed)
+        return x[..., 1:] - x[..., :-1]
+
+    kind = ["parallelized", "allowed", "allowed-map_overlap"][(desc["dseed"] // 7) % 3]
+    opts = {"dask": "parallelized"} if kind == "parallelized" else {"dask": "allowed"} if kind == "allowed" else {"dask": "allowed", "map_overlap": True}
+    lazy = da.chunk({"time": 1, cm[a]["center"]: (1 if kind == "allowed-map_overlap" and n > 1 else -1)})
+    rule = gen.RULES[desc["dseed"] % len(gen.RULES)]
+    common = dict(boundary=rule, fill_value=2.5)
+    ctx.judged(("dask-binding", kind, rule), True)
+    try:
+        eager = apply_as_grid_ufunc(f, da, axis=[(a,)], grid=g, signature=sig, boundary_width=bw, **common)
+        variants = {
+            "definition": lambda: as_grid_ufunc(signature=sig, boundary_width=bw, **opts, **common)(f)(g, lazy, axis=[(a,)]),
+            "call": lambda: as_grid_ufunc(signature=sig, boundary_width=bw, **common)(f)(g, lazy, axis=[(a,)], **opts),
+            "call-overrides-forbidden": lambda: as_grid_ufunc(signature=sig, boundary_width=bw, dask="forbidden", **common)(f)(g, lazy, axis=[(a,)], **opts),
+            "apply": lambda: apply_as_grid_ufunc(f, lazy, axis=[(a,)], grid=g, signature=sig, boundary_width=bw, **opts, **common),
+        }
+        handed = {}
+        for nm, fn in variants.items():
+            del seen[:]
+            r = fn()
+            if not dask.is_dask_collection(r):
+                ctx.violation("dask-options-binding", f"{kind} given at {nm} level: the result of a lazy input is not lazy")
+                return
+            v = r.compute(scheduler="synchronous")
+            if v.dims != eager.dims or not np.array_equal(v.values, eager.values):
+                ctx.violation("dask-options-binding", f"{kind} given at {nm} level ({rule}): result differs from the in-memory result")
+                return
+            handed[nm] = sorted(set(seen))
+            ctx.note("array_kinds_handed_to_user_function", (kind, tuple(handed[nm])))
+        # what the user function is handed (numpy blocks or the lazy array) is the same wherever the options were given
+        if len({tuple(v) for v in handed.values()}) > 1:
+            ctx.violation("dask-options-binding", f"{kind}: the user function is handed different array kinds depending on where the options are given: {handed}")
+            return
+    except Exception as e:
+        ctx.violation("dask-options-binding", f"{kind}: raised {type(e).__name__}: {str(e)[:200]}")
+        return
+    # call-time 'forbidden' overrides a definition-time permission: a lazy input is then refused
+    ctx.judged(("dask-binding-override-to-forbidden", kind), True)
+    try:
+        as_grid_ufunc(signature=sig, boundary_width=bw, **opts, **common)(f)(g, lazy, axis=[(a,)], dask="forbidden", map_overlap=False)
+        ctx.violation("dask-options-binding", f"defined with {opts}, called with dask='forbidden': the lazy input was accepted (call-time value did not override)")
+    except Exception:
+        pass
